@@ -241,6 +241,15 @@ class Session:
                 else:
                     lst = I.call_repo('mpd_protocol::CommandList::command', [lst, cmd])
             c.fut = I.call_repo('mpd_client::client::Client::raw_command_list', [ref_to(c.client), lst])
+        elif req[0] == 'typed':
+            # a typed command list (Vec of harness commands c<k>) through Client::command_list
+            from props.c13 import HCmd
+            cmds = []
+            for k, nm in enumerate(req[1]):
+                assert nm == bytes([ord('c'), 97 + k])
+                h = HCmd(k); h.nofail = True
+                cmds.append(h)
+            c.fut = I.call_repo('mpd_client::client::Client::command_list::<Vec<HCmd>>', [ref_to(c.client), VecObj(cmds)])
         elif req[0] == 'art':
             c.fut = I.call_repo('mpd_client::client::Client::album_art', [ref_to(c.client), str_ref(req[1])])
         else:
@@ -299,9 +308,14 @@ class Session:
         self.steps.append('change:' + name.decode())
 
     def tick(self):
-        world(self.I).clock += 1
+        world(self.I).clock += 150
         self.mark_dirty()
         self.steps.append('tick')
+
+    def longtick(self):
+        world(self.I).clock += 60_000
+        self.mark_dirty()
+        self.steps.append('longtick')
 
     def drop_client(self, k=0):
         c = self.clients.pop(k)
@@ -381,6 +395,8 @@ class Session:
             acts.append(('change',))
         if budget.get('tick', 0) > 0:
             acts.append(('tick',))
+        if budget.get('longtick', 0) > 0:
+            acts.append(('longtick',))
         if budget.get('slowwrite', 0) > 0 and self.t.write_budget is None:
             acts.append(('slowwrite',))
         if self.t.write_budget is not None and self.t.write_budget == 0:
@@ -405,6 +421,7 @@ class Session:
             budget['nchanged'] = budget.get('nchanged', 0) + 1
             budget['change'] -= 1; self.change(n)
         elif k == 'tick': budget['tick'] -= 1; self.tick()
+        elif k == 'longtick': budget['longtick'] -= 1; self.longtick()
         elif k == 'slowwrite':
             budget['slowwrite'] -= 1
             self.t.write_budget = 1; self.steps.append('slowwrite')
@@ -487,6 +504,10 @@ def outcome_of(r):
     """Result<Frame | Vec<Frame>, CommandError> -> python description"""
     if r.variant == 'Ok':
         v = r.fields[0]
+        if isinstance(v, VecObj) and v.v and isinstance(v.v[0], Tup):
+            return ('typed', [(it.items[0], frame_fields(it.items[1])) for it in v.v])
+        if isinstance(v, VecObj) and getattr(v, 'typed_result', False):
+            return ('typed', [])
         if isinstance(v, VecObj):
             return ('frames', [frame_fields(f) for f in v.v])
         if isinstance(v, Adt) and v.ty.endswith('Frame'):
@@ -547,6 +568,8 @@ def expected_reply(req):
                 return ('ack', 5, k, nm, frames)
             frames.append([(b'id', nm)])
         return ('frames', frames)
+    if req[0] == 'typed':
+        return ('typed', [(k, [(b'id', nm)]) for k, nm in enumerate(req[1])])
     raise KeyError(req)
 
 def request_lines(req):
